@@ -37,6 +37,19 @@ CHECKS["C14"] = dict(
     note="Trusted: pysym interpreter/models (deepcopy is the interpreted stdlib copy module), z3. Bounds in evidence.",
     ref="§4 C14")
 
+CHECKS["C01"] = dict(
+    text="Every text up to the stated length over the splitter alphabet, alone and around concrete blocks (incl. duplicate keys/fields and @string references), is run symbolically through the real parse_string and write_string (default stacks, interpreted stdlib deepcopy); z3 decides per final world that no exception escapes and failed blocks carry error and raw. Non-termination shows as a per-world step-limit hit; input-driven recursion (a repo function more than twice on the stack) is reported and confirmed by replaying a pumped input on the real code - that is how sizes beyond the bound are covered.",
+    note="Trusted: pysym interpreter/models incl. the re.finditer model, z3. The claim for 10^3..10^5-line inputs rests on the recursion/step obligations, not on executing such inputs symbolically.",
+    ref="§4 C01")
+CHECKS["C02"] = dict(
+    text="Documents are symbolic templates derived from the dialect grammar of DESIGN §3.1 (all single blocks with value/text holes up to 6-7 characters, all ordered pairs, thorough: triples); hole contents are restricted to the grammar by interpreting its recognisers on the symbolic holes, and z3 decides per final world that the real Splitter returns exactly the template's constructive ground truth.",
+    note="Trusted: pysym interpreter/models, the grammar recognisers in checks/grammar.py, z3. Duplicate keys are excluded (C09).",
+    ref="§4 C02, §3.1")
+CHECKS["C04"] = dict(
+    text="X in D1 + X + newline + D2 is fully symbolic (every text up to the bound over the splitter alphabet) for 7 concrete D1 and 5 concrete D2; the real Splitter is run symbolically and z3 decides per final world that the blocks of D1 are a prefix and those of D2 a suffix (class, keys, fields, values, texts, raw) and that blank X yields the plain concatenation.",
+    note="Trusted: pysym interpreter/models, z3. D1/D2 are the listed concrete documents.",
+    ref="§4 C04")
+
 NOT_YET = "check not built yet in this round (engine exists; harness pending)"
 
 def main():
